@@ -38,6 +38,10 @@ def run(ctx):
                 for i in range(4):
                     jobs.append({"part": "c04", "instance": inst, "k": k, "c04": cases[i::4], "shard": i + 10 * k})
 
+    # one verifier chip used for two proofs (a batching caller): the key presented with the second proof is bound like the first one's
+    for pair in (("testdata+roottest", "epochCb+epoch4R") if thorough else ("testdata+roottest",)):
+        jobs.append({"part": "two", "instance": pair, "k": 1, "ks": ["key"], "shard": 72, "c04": [{"wrapper": "vc"}]})
+
     def one(j):
         return ctx.run_driver("wrapper", j, tag="c04-%s-%d-%s" % (j["instance"], j["shard"], j["c04"][0]["wrapper"]), timeout=3400)
 
